@@ -97,6 +97,10 @@ func NewUniverse(r *rand.Rand, d7 bool) *Universe {
 		u.BaseURI = Pick(r, []string{"http://h/d/root.json", "http://h/root.json", "https://h.example/a/b/root.json"})
 	}
 	nd := []int{0, 1, 1, 2, 2, 3}[r.IntN(6)]
+	if absBase && r.IntN(40) == 0 {
+		// size stress: more loader documents in one Resolve call than any table sized for "a few" holds
+		nd = Pick(r, []int{15, 16, 17, 31, 32, 33, 34, 63, 64, 65, 66, 70, 130})
+	}
 	// root document
 	rootID := ""
 	switch {
